@@ -167,3 +167,37 @@ Theorem C14_no_flush_below_threshold_partial : forall k c i b c',
   segs c' = segs c.
 Proof. exact no_flush_below_threshold. Qed.
 Print Assumptions C14_no_flush_below_threshold_partial.
+
+(* ---------------------------------------------------------------- chunk level: ColumnCollectionSegment::append_batch
+   as written (segment.rs): the loop that splits one appended batch over storage chunks *)
+
+(* after ANY sequence of append_batch calls, with batches of any sizes (larger than, equal to, smaller than the chunk
+   capacity, empty) and any chunk capacity > 0: the chunks, read in order, are exactly the appended batches in order
+   — no row lost, duplicated or reordered — and every chunk except the current (last) one is full *)
+Theorem C14_append_batch_chunks_exact : forall cp batches rchs, 0 < cp -> wfc cp rchs ->
+  exists rchs', seg_appends true cp rchs batches = Some rchs' /\
+    chunk_rows rchs' = chunk_rows rchs ++ concat batches /\ wfc cp rchs'.
+Proof. exact seg_appends_exact_proof. Qed.
+Print Assumptions C14_append_batch_chunks_exact.
+
+(* the chunk count of a local segment is the closed form used by the collection model's flush threshold *)
+Theorem C14_chunk_count_is_nchunks : forall cp rchs, 0 < cp -> wfc cp rchs -> rchs <> [] ->
+  length rchs = nchunks cp true (length (chunk_rows rchs)).
+Proof. exact chunk_count_is_nchunks_proof. Qed.
+Print Assumptions C14_chunk_count_is_nchunks.
+
+(* one appender partition (append_batch, flush at segment_size chunks, flush at the end): the table then holds its
+   previous rows followed by the batches *)
+Theorem C14_bulk_append_content : forall cp sz batches sg rchs, 0 < cp -> wfc cp rchs ->
+  exists sg', bulk true cp sz sg rchs batches = Some sg' /\ concat sg' = concat sg ++ chunk_rows rchs ++ concat batches.
+Proof. exact bulk_content_proof. Qed.
+Print Assumptions C14_bulk_append_content.
+
+(* the variant `input_offset = copy_count` (instead of `+=`) is distinguished by the statement above: REFUTED for it
+   with a batch spanning three chunks — same count, rows duplicated and lost *)
+Theorem C14_append_batch_eq_variant_refuted :
+  exists cp batch rchs', seg_append false cp [] batch = Some rchs' /\
+    length (chunk_rows rchs') = length batch /\ chunk_rows rchs' <> batch /\
+    seg_append true cp [] batch = Some (rev [[1; 2]; [3; 4]; [5; 6]])%N.
+Proof. exact seg_append_eq_variant_refuted_proof. Qed.
+Print Assumptions C14_append_batch_eq_variant_refuted.
